@@ -1,7 +1,7 @@
 (* Model/DispatchC18.v — entry point for running the C18 models on integer argument lists (see Model/DispatchC15.v).
    Strings travel as code point lists: 0 :: code points (normal), [1; exn code] (raise), [2] (None), [9] (bad call). *)
 From Coq Require Import ZArith List Bool String.
-From PV Require Import Lib.PyBase Model.LocaleBase Gen.Locales Model.DiffFormat.
+From PV Require Import Lib.PyBase Model.LocaleBase Gen.Locales Model.DiffFormat Model.LocaleSession Model.PdBase Model.DiffHumans.
 Import ListNotations.
 Open Scope Z_scope.
 
@@ -17,6 +17,65 @@ Definition unit_index (u : string) : Z :=
 
 Definition with_locale (i : Z) (f : locale -> list Z) : list Z :=
   match nth_locale i with Some L => f L | None => [9] end.
+
+(* ---- a session (Model/LocaleSession.v) as a flat integer list.  A string is  len c1 .. clen ; an optional locale is 0 or 1 <string>.
+   operations:  1 <name> set_locale | 2 get_locale | 3 <name> locale(name) | 4 <loc> y mo w d h mi s inv now abs  format_diff
+                5 <loc> y mo w d h mi s us <sep>  in_words | 6 <loc> tok month dow day hour  format token *)
+Definition take_str (l : list Z) : option (pstr * list Z) :=
+  match l with
+  | n :: r => if (0 <=? n) && (Z.to_nat n <=? List.length r)%nat then Some (firstn (Z.to_nat n) r, skipn (Z.to_nat n) r) else None
+  | [] => None
+  end.
+Definition take_loc (l : list Z) : option (option pstr * list Z) :=
+  match l with
+  | 0 :: r => Some (None, r)
+  | 1 :: r => match take_str r with Some (s, r') => Some (Some s, r') | None => None end
+  | _ => None
+  end.
+Definition take_op (l : list Z) : option (sop * list Z) :=
+  match l with
+  | 1 :: r => match take_str r with Some (n, r') => Some (SSet n, r') | None => None end
+  | 2 :: r => Some (SGet, r)
+  | 3 :: r => match take_str r with Some (n, r') => Some (SLoad n, r') | None => None end
+  | 4 :: r =>
+    match take_loc r with
+    | Some (loc, y :: mo :: w :: d :: h :: mi :: s :: inv :: now :: absolute :: r') =>
+      Some (SFmt loc (mkcomp y mo w d h mi s) (zb now) (zb absolute) (zb inv), r')
+    | _ => None
+    end
+  | 5 :: r =>
+    match take_loc r with
+    | Some (loc, y :: mo :: w :: d :: h :: mi :: s :: us :: r') =>
+      match take_str r' with Some (sep, r'') => Some (SWords loc (mkcomp y mo w d h mi s) us sep, r'') | None => None end
+    | _ => None
+    end
+  | 6 :: r =>
+    match take_loc r with
+    | Some (loc, tok :: month :: dow :: day :: hour :: r') => Some (STok loc tok month dow day hour, r')
+    | _ => None
+    end
+  | _ => None
+  end.
+Fixpoint decode_ops (fuel : nat) (l : list Z) : option (list sop) :=
+  match l with
+  | [] => Some []
+  | _ =>
+    match fuel with
+    | O => None
+    | S f =>
+      match take_op l with
+      | Some (o, r) => match decode_ops f r with Some ops => Some (o :: ops) | None => None end
+      | None => None
+      end
+    end
+  end.
+
+(* output number k of the session, started from the given configured name *)
+Definition session_out (init : pstr) (k : Z) (code : list Z) : list Z :=
+  match decode_ops (List.length code) code with
+  | Some ops => if k <? 0 then [9] else match nth_error (run init ops) (Z.to_nat k) with Some r => of_res r | None => [9] end
+  | None => [9]
+  end.
 
 Definition dispatch (fn : Z) (args : list Z) : list Z :=
   match fn, args with
@@ -34,5 +93,20 @@ Definition dispatch (fn : Z) (args : list Z) : list Z :=
   | 9 (* date_format *), [loc; i] =>
       with_locale loc (fun L => match date_format L i with Ok (Some s) => 0 :: s | Ok None => [2] | Raise e => [1; exn_code e] end)
   | 10 (* fmt2 *), [us] => 0 :: fmt2 us
+  | 11 (* session *), k :: code => session_out initial k code
+  | 12 (* normalize_locale *), name => 0 :: normalize_locale name
+  (* an operand is 13 integers: the 12 of Model/DispatchC06.v — year month day hour minute second microsecond offset has_tz tzname tzobj
+     is_datetime — and the offset of the same wall time read with fold 0; [3] = the UTC instant of an operand is outside 0001..9999 *)
+  | 13 (* diff_comps *), [rs; y1;m1;d1;h1;i1;s1;u1;o1;t1;n1;b1;k1;f1; y2;m2;d2;h2;i2;s2;u2;o2;t2;n2;b2;k2;f2] =>
+      let a := mkpdt y1 m1 d1 h1 i1 s1 u1 o1 (zb t1) n1 b1 (zb k1) in let b := mkpdt y2 m2 d2 h2 i2 s2 u2 o2 (zb t2) n2 b2 (zb k2) in
+      if dh_in_domain a b f1 f2 then
+        match diff_comps (zb rs) a b f1 f2 with
+        | Ok (c, inv) => [0; c_years c; c_months c; c_weeks c; c_rdays c; c_hours c; c_minutes c; c_rsecs c; Z.b2z inv]
+        | Raise e => [1; exn_code e]
+        end
+      else [3]
+  | 14 (* dfh *), [loc; rs; absolute; y1;m1;d1;h1;i1;s1;u1;o1;t1;n1;b1;k1;f1; y2;m2;d2;h2;i2;s2;u2;o2;t2;n2;b2;k2;f2] =>
+      let a := mkpdt y1 m1 d1 h1 i1 s1 u1 o1 (zb t1) n1 b1 (zb k1) in let b := mkpdt y2 m2 d2 h2 i2 s2 u2 o2 (zb t2) n2 b2 (zb k2) in
+      if dh_in_domain a b f1 f2 then with_locale loc (fun L => of_res (diff_for_humans L (zb rs) a b f1 f2 (zb absolute))) else [3]
   | _, _ => [9]
   end.
